@@ -16,6 +16,10 @@ EdgeSpec == EdgeInit /\ [][EdgeNext]_<<vars, hist>>
 Emit == PrintT("EDGE " \o ToJson([f |-> StateRec, a |-> last', t |-> StateRec']))
 EmitInit == pc = [t \in Threads |-> "idle"] => PrintT("INIT " \o ToJson(StateRec))
 
+\* the deletion race: every thread runs its own operation (filtered inside the next-state relation)
+RaceNext == Next /\ RaceAssigned' /\ UNCHANGED hist
+RaceSpec == EdgeInit /\ [][RaceNext]_<<vars, hist>>
+
 \* simulation
 SimInit == Init /\ hist = <<[a |-> last, s |-> StateRec]>>
 SimNext == Next /\ hist' = Append(hist, [a |-> last', s |-> StateRec'])
